@@ -41,7 +41,7 @@ RULE = ("histories of 0-12 operations over 2-4 shared operands (results are reus
         "snap/lc/avg; distinct by digest of (leaf specs, ops)")
 ASSUMPTIONS = [
     "scalars are Python int/float and the NumPy scalars np.float64 / np.int64 on either side (`np.float64(2) * P`, `P * np.int64(2)`); "
-    "np.int64 with GRID landscapes is not generated (PersLandscapeApprox.__mul__ tests isinstance(other, (int, float)), which a "
+    "np.int64 with GRID landscapes is generated too since the repo fix to numbers.Real (before it, isinstance(other, (int, float)) made a "
     "NumPy integer fails: `P * np.int64(2)` raises TypeError while `np.int64(2) * P` goes through NumPy's object dispatch); "
     "float32 scalars and bool are dispatched by numpy/Python coercion rules and are not modelled",
     "operands untouched: every attribute of every live landscape is byte-compared before/after each operation and at the end of the "
@@ -72,7 +72,7 @@ E_FILES = ["persim/landscapes/auxiliary.py", "persim/landscapes/exact.py", "pers
            "persim/landscapes/tools.py", "persim/landscapes/base.py"]
 # structural digest of the anchored functions on the reference tree (/repo at 56d4899); a different digest is not a
 # violation, it only raises the quick budget for that run (DESIGN 3.2)
-ANCHOR_DIGEST = {'auxiliary': 'bc3772c38ec6fa78', 'exact': '30b8b8be1c93da13', 'approximate': '0f8fb68d7e3281ea', 'tools': 'b70bef56f7bb2a6b', 'base': '745f7ac02fc4f30e'}
+ANCHOR_DIGEST = {'auxiliary': 'bc3772c38ec6fa78', 'exact': '30b8b8be1c93da13', 'approximate': '25120994b5b1880c', 'tools': 'b70bef56f7bb2a6b', 'base': 'ab9a610b3e0fd97c'}
 
 
 # --------------------------------------------------------------------------- the real code
@@ -123,8 +123,9 @@ def build_leaf(spec):
 
 
 def _gdgm(A, spec):
+    kw = {"compute": False} if spec.get("compute") is False else {}            # a lazy grid leaf (repo fix b17ec4c)
     return A(dgms=[np.array(d, dtype=float).reshape(-1, 2) for d in spec["dgms"]], hom_deg=spec["hom_deg"],
-             start=spec["start"], stop=spec["stop"], num_steps=spec["num_steps"])
+             start=spec["start"], stop=spec["stop"], num_steps=spec["num_steps"], **kw)
 
 
 def scalar_of(c):
@@ -244,6 +245,9 @@ def snapshot(pl, lazy=False):
     (`critical_pairs`, `max_depth`) — that fills a cache and does not change the function the operand represents.  For such a
     leaf the cache attributes are replaced by the represented function itself (`cps_of`: the stored critical pairs, or what
     the constructor computes from the stored diagram while the cache is empty); every other attribute is still compared."""
+    if lazy and not is_exact(pl):
+        items = [(k, _deep(v)) for k, v in sorted(vars(pl).items()) if k not in ("values", "max_depth")]
+        return tuple(items) + (("represented_function", _deep(vals_of(pl))),)
     if lazy:
         items = [(k, _deep(v)) for k, v in sorted(vars(pl).items()) if k not in ("critical_pairs", "max_depth")]
         return tuple(items) + (("represented_function", _deep(cps_of(pl))),)
@@ -276,6 +280,21 @@ def cps_of(pl):
         except Exception:
             cps = []
     return [[[float(p[0]), float(p[1])] for p in d] for d in cps]
+
+
+def vals_of(pl):
+    """the samples a grid landscape represents: the stored values, or — built with compute=False and not yet computed —
+    what the real constructor computes from the stored diagram on the same grid (on a fresh object)"""
+    v = np.asarray(pl.values)
+    if v.size == 0 and len(getattr(pl, "dgms", ())) > 0:
+        A = common.pm("landscapes.approximate").PersLandscapeApprox
+        try:
+            with np.errstate(all="ignore"), contextlib.redirect_stdout(io.StringIO()):
+                v = A(dgms=[np.array(pl.dgms, dtype=float, copy=True).reshape(-1, 2)], hom_deg=0, start=pl.start, stop=pl.stop,
+                      num_steps=pl.num_steps).values
+        except Exception:
+            v = np.zeros((0, 0))
+    return np.asarray(v, dtype=float).tolist()
 
 
 def grid_of(pl):
@@ -751,7 +770,10 @@ def gen_gdgm_leaf(ctx, mode, e, hom_deg, grid, short=False):
             b = s + r.randint(0, 4 * (n - 1) - 3) * step / 4.0
             bars.append([b, b + r.choice([0.25, 0.5, 0.75]) * step])
         dgms[hom_deg] = bars
-    return {"kind": "gdgm", "dgms": dgms, "hom_deg": hom_deg, "start": s, "stop": t, "num_steps": n}
+    spec = {"kind": "gdgm", "dgms": dgms, "hom_deg": hom_deg, "start": s, "stop": t, "num_steps": n}
+    if r.random() < 0.25:
+        spec["compute"] = False             # a lazy grid leaf: arithmetic must compute it first
+    return spec
 
 
 def gen_grid_history(ctx):
@@ -789,8 +811,8 @@ def gen_grid_history(ctx):
         elif kind == "neg":
             ops.append([kind, pick()]); nreg += 1
         elif kind in ("mul", "rmul", "div"):
-            # grid landscapes check isinstance(other, (int, float)): np.float64 is a float; np.int64 is not generated here
-            ops.append([kind, pick(), gen_scalar(ctx, exact, div=(kind == "div"), np_ok="float64-only")]); nreg += 1
+            # every real scalar, NumPy integers included (repo fix: numbers.Real instead of (int, float))
+            ops.append([kind, pick(), gen_scalar(ctx, exact, div=(kind == "div"), np_ok=True)]); nreg += 1
         else:
             m = r.choice([0, 1, 1, 2, 2, 3, 4]) if r.random() < 0.5 else r.randint(1, 3)
             idxs = [pick() for _ in range(m)]
@@ -853,7 +875,7 @@ def run_history(hist, ctx=None):
                 # not a landscape the arithmetic can be run on; `run` reports it (placeholder_violation)
                 run.leaf_error = "placeholder-values"
                 return run
-        lazy = [sp.get("kind") == "dgm" and sp.get("compute") is False for sp in hist["leaves"]]
+        lazy = [sp.get("kind") in ("dgm", "gdgm") and sp.get("compute") is False for sp in hist["leaves"]]
         snaps = lambda: [snapshot(p, i < len(lazy) and lazy[i]) for i, p in enumerate(run.regs)]
         run.lazy_leaves = sum(lazy)
         first = snaps()
